@@ -188,8 +188,11 @@ func (rp *relyingParty) Logger(ctx context.Context) (logger *slog.Logger, ok boo
 // OAuth2 Config and possible configOptions
 // it will use the AuthURL and TokenURL set in config
 func NewRelyingPartyOAuth(config *oauth2.Config, options ...Option) (RelyingParty, error) {
+	// private copy: the constructor sets Endpoint.AuthStyle below and
+	// must not write into the caller's config.
+	oauthConfig := *config
 	rp := &relyingParty{
-		oauthConfig:         config,
+		oauthConfig:         &oauthConfig,
 		httpClient:          httphelper.DefaultHTTPClient,
 		oauth2Only:          true,
 		unauthorizedHandler: DefaultUnauthorizedHandler,
